@@ -104,7 +104,20 @@ func PayloadLen(min, max int, edges ...int) *rapid.Generator[int] {
 	if len(ok) > 0 {
 		gens = append(gens, rapid.SampledFrom(ok))
 	}
-	return rapid.OneOf(gens...)
+	small := rapid.OneOf(gens...)
+	if max < 3000 {
+		return small
+	}
+	// The wire format carries no payload length: whatever follows the fixed fields is payload, so nothing bounds it
+	// but the transport. One case in twenty takes a length around the powers of two where a width or a buffer
+	// bound would sit.
+	big := rapid.SampledFrom([]int{16383, 16384, 32767, 32768, 65534, 65535, 65536, 65537, 70000, 131071, 131072, 200000})
+	return rapid.Custom(func(t *rapid.T) int {
+		if rapid.IntRange(0, 19).Draw(t, "bigpayload") == 0 {
+			return big.Draw(t, "biglen")
+		}
+		return small.Draw(t, "len")
+	})
 }
 
 func minInt(a, b int) int {
